@@ -6,7 +6,7 @@
    are given to the REAL checker; the mirror is validated on every generated site through `sol_fp` / `prob_fp`.
    "Misplaced break" (E2EX3): MBreakLoc (the break is reported at another location), MBreakDup (taken twice), MBreakDrop (taken
    out of the tour).  No proofs in this file. *)
-From VRP Require Import Base.Tac Model.Core Spec.Feasible Spec.Valid.
+From VRP Require Import Base.Tac Model.Core Spec.Feasible Spec.Valid Spec.Relations.
 
 (* ------------------------------------------------------------------ list surgery *)
 Fixpoint upd_nth {A} (n : nat) (f : A -> A) (l : list A) : list A :=
@@ -126,7 +126,12 @@ Inductive mutation :=
 (* misplaced break *)
 | MBreakLoc (k s a : nat) (l : Z)       (* activity a (a break) of stop s of tour k is reported at location l, which is not its stop's *)
 | MBreakDup (k s a : nat)               (* the break activity a of stop s of tour k is taken twice (copy right behind it) *)
-| MBreakDrop (k s a : nat)              (* the break activity a of stop s of tour k disappears (with its stop when it is alone there) *).
+| MBreakDrop (k s a : nat)              (* the break activity a of stop s of tour k disappears (with its stop when it is alone there) *)
+(* broken relation (judged by Spec/Relations.v rel_viols, see valid_r below): a stop that serves a job pinned by a relation of
+   the plan leaves its tour, or the visiting order of a tour is changed so that the order / the contiguity of the block / its
+   anchoring to the departure or the arrival is lost *)
+| MRelTour (k s k2 : nat)               (* stop s of tour k moves to tour k2 (inserted as its stop 1): the surgery of MMoveStop *)
+| MRelShift (k s s2 : nat)              (* stop s of tour k moves to position s2 of the same tour (counted after taking it out) *).
 
 Definition dup_last {A} (l : list A) : list A := match rev l with [] => l | x :: _ => l ++ [x] end.
 Definition dup_nth {A} (i : nat) (l : list A) : list A := match nth_error l i with Some x => l ++ [x] | None => l end.
@@ -171,6 +176,16 @@ Definition mutS (m : mutation) (S : ssolution) : ssolution :=
                  end
     | None => S
     end
+  | MRelTour k s k2 =>
+    match stop_at S k s with
+    | Some st => set_tours (fun l => upd_nth k2 (set_stops (ins_nth 1 st)) (upd_nth k (set_stops (del_nth s)) l)) S
+    | None => S
+    end
+  | MRelShift k s s2 =>
+    match stop_at S k s with
+    | Some st => set_tours (upd_nth k (set_stops (fun l => ins_nth s2 st (del_nth s l)))) S
+    | None => S
+    end
   end.
 
 Definition mutP (m : mutation) (P : pproblem) (S : ssolution) : pproblem :=
@@ -194,6 +209,7 @@ Definition mutP (m : mutation) (P : pproblem) (S : ssolution) : pproblem :=
 
 (* ------------------------------------------------------------------ applicable sites *)
 Definition has_job_act (st : sstop) : bool := existsb is_job_act (ss_acts st).
+Definition has_mid_act (st : sstop) : bool := existsb (fun a => is_mid_kind (sa_kind a)) (ss_acts st).
 Definition last_is_job (st : sstop) : bool := match rev (ss_acts st) with a :: _ => is_job_act a | [] => false end.
 Definition some_b {A} (o : option A) (f : A -> bool) : bool := match o with Some x => f x | None => false end.
 
@@ -202,8 +218,11 @@ Definition applicable_b (m : mutation) (P : pproblem) (S : ssolution) : bool :=
   | MLoad k s d | MDistance k s d => negb (d =? 0) && some_b (stop_at S k s) (fun _ => true)
   | MArrival k s d => negb (d =? 0) && (1 <=? s)%nat && some_b (stop_at S k s) (fun st => match ss_acts st with [] => false | _ => true end)
   | MCapacity k s =>
-    (* any stop but the last one (the final arrival unloads the vehicle) *)
-    some_b (tour_at S k) (fun t => (s + 1 <? length (to_stops t))%nat) && some_b (stop_at S k s) (fun _ => true)
+    (* any stop but a last one that holds the arrival (the final arrival unloads the vehicle); the last stop of an open-ended
+       tour counts *)
+    some_b (tour_at S k) (fun t => (s + 1 <? length (to_stops t))%nat
+                                   || some_b (nth_error (to_stops t) s) (fun st => negb (existsb (fun a => sa_kind a =? 11) (ss_acts st))))
+    && some_b (stop_at S k s) (fun _ => true)
   | MUnknownAct k s a j => negb (zmem j (job_ids P)) && some_b (act_at S k s a) is_job_act
   | MUnknownUn j => negb (zmem j (job_ids P))
   | MDupAct k s => some_b (stop_at S k s) last_is_job
@@ -223,6 +242,10 @@ Definition applicable_b (m : mutation) (P : pproblem) (S : ssolution) : bool :=
   | MBreakLoc k s a l =>
     some_b (stop_at S k s) (fun st => negb (l =? ss_loc st) && some_b (nth_error (ss_acts st) a) is_break_sact)
   | MBreakDup k s a | MBreakDrop k s a => some_b (stop_at S k s) (fun st => some_b (nth_error (ss_acts st) a) (long_break st))
+  (* which relation is broken, and how, is decided by rel_viols on the breached document (the sites are proposed by the python
+     twin of rel_viols, which is thereby validated on every site); here only: the surgery is defined and changes something *)
+  | MRelTour k s k2 => negb (k =? k2)%nat && some_b (stop_at S k s) has_mid_act && some_b (tour_at S k2) (fun _ => true)
+  | MRelShift k s s2 => negb (s =? s2)%nat && (1 <=? s)%nat && (1 <=? s2)%nat && some_b (stop_at S k s) has_mid_act
   end.
 
 (* ------------------------------------------------------------------ fingerprints (mirror validation) *)
@@ -249,3 +272,10 @@ Definition prob_fp (P : pproblem) : Z := fp (prob_numbers P).
 Definition run_mutation (m : mutation) (P : pproblem) (S : ssolution) :=
   (valid_b P S, applicable_b m P S, valid_b (mutP m P S) (mutS m S), (sol_fp (mutS m S), prob_fp (mutP m P S))).
 Definition run_base (P : pproblem) (S : ssolution) := (valid_b P S, summary P S).
+
+(* the same for a problem whose plan has relations: the reference verdict is valid_b plus the pinning rules of Spec/Relations.v
+   (rels = [] gives valid_b itself) *)
+Definition valid_r (rels : list prel) (P : pproblem) (S : ssolution) : list violation := valid_b P S ++ rel_viols rels S.
+Definition run_mutation_r (m : mutation) (rels : list prel) (P : pproblem) (S : ssolution) :=
+  (valid_r rels P S, applicable_b m P S, valid_r rels (mutP m P S) (mutS m S), (sol_fp (mutS m S), prob_fp (mutP m P S))).
+Definition run_base_r (rels : list prel) (P : pproblem) (S : ssolution) := (valid_r rels P S, summary P S).
